@@ -1,0 +1,7 @@
+//go:build !verif
+
+package utils
+
+func verifPolyWait(rs *ReedSolomonEncoder)                             {}
+func verifPolyEnter(rs *ReedSolomonEncoder, degree int) int            { return 0 }
+func verifPolyLeave(rs *ReedSolomonEncoder, degree int, lenBefore int) {}
